@@ -85,6 +85,10 @@ class KDSubset(Subset):
     def __getitem__(self, idx):
         raise UseModeWrapperException
 
+    def __getitems__(self, indices):
+        # newer torch versions refuse to construct a Subset subclass that overrides __getitem__ only
+        raise UseModeWrapperException
+
     def get_sampler_weights(self):
         sampler_weights = self.dataset.get_sampler_weights()
         assert torch.is_tensor(sampler_weights)
